@@ -19,6 +19,9 @@ pub fn plan(o: &Opts) -> Vec<GroupSpec> {
       "C07" => plan_c07(o),
       "C08" => plan_c08(o),
       "C09" => plan_c09(o),
+      "C10" => plan_ds(o, "C10", vcore::ast::Ds::EqRel),
+      "C11" => plan_ds(o, "C11", vcore::ast::Ds::TrRel),
+      "C12" => plan_ds(o, "C12", vcore::ast::Ds::TrRelUf),
       "C13" => plan_c13(o),
       "C14" => plan_c14(o),
       "C20" => plan_par(o, "C20", 30, 120, false, |r| gen::gen_any(r, &GenCfg::core())),
@@ -372,4 +375,28 @@ fn plan_c09(o: &Opts) -> Vec<GroupSpec> {
       out.push(GroupSpec { members });
    }
    out
+}
+
+/// C10-C12: programs around a BYODS-tagged relation; binary eqrel also under ascent_par!
+fn plan_ds(o: &Opts, prop: &str, ds: vcore::ast::Ds) -> Vec<GroupSpec> {
+   let n = n_programs(o, 90, 1000);
+   (0..n as u64)
+      .map(|i| {
+         let mut r = rng_for(prop, o.seed, i);
+         let ternary = i % 2 == 1;
+         let prog = vcore::gen_ds::gen_byods(&mut r, &GenCfg::core(), ds, ternary);
+         let base = format!("{prop}-s{}-{}", o.seed, i);
+         let mut m = meta(&base, "ser", Kind::Ascent, true);
+         m.labels = vec![format!("arity={}", if ternary { 3 } else { 2 })];
+         let mut members = vec![MemberSpec { prog: prog.clone(), opts: PrintOpts::plain(Kind::Ascent), meta: m }];
+         if ds == vcore::ast::Ds::EqRel && !ternary && i % 4 == 0 {
+            if let Some(kf) = gen::par_rejects(&prog) {
+               crate::count_excluded(kf);
+               return GroupSpec { members };
+            }
+            members.push(MemberSpec { prog: prog.clone(), opts: PrintOpts::plain(Kind::AscentPar), meta: meta(&base, "par", Kind::AscentPar, false) });
+         }
+         GroupSpec { members }
+      })
+      .collect()
 }
